@@ -269,6 +269,7 @@ type Script struct {
 	strList []string
 	defOf   map[string]string // defined name -> defining term
 	pure    int               // >0: inside contract evaluation (no definitions, no bound-variable asserts)
+	guard   string            // reachability condition of the instruction being executed: every assumption made while executing it holds only on paths that reach it
 }
 
 func newScript() *Script {
@@ -323,12 +324,27 @@ func (s *Script) fun(name string, args []string, ret string) string {
 	return name
 }
 
+// axiom asserts a fact that does not depend on the program point (definitions
+// of lazily declared symbols, facts about literals and globals).
+func (s *Script) axiom(t string) {
+	if t == "true" {
+		return
+	}
+	s.emit("(assert " + t + ")")
+}
+
 func (s *Script) assert(t string) {
 	if t == "true" {
 		return
 	}
 	if s.pure > 0 && strings.Contains(t, "qv_") {
 		return // mentions a bound variable of a contract quantifier
+	}
+	if s.guard != "" && s.guard != "true" {
+		t = mkImp(s.guard, t)
+		if t == "true" {
+			return
+		}
 	}
 	s.emit("(assert " + t + ")")
 }
@@ -349,7 +365,7 @@ func (s *Script) define(hint, sort, t string) string {
 	}
 	n := s.fresh(hint, sort)
 	s.defOf[n] = t
-	s.assert(mkEq(n, t))
+	s.emit("(assert " + mkEq(n, t) + ")") // definitional: unconditional
 	return n
 }
 
@@ -381,6 +397,10 @@ func prelude(logic string) []string {
 		// concatenation
 		"(assert (forall ((s Str) (t Str)) (! (= (slen (scat s t)) (+ (slen s) (slen t))) :pattern ((scat s t)))))",
 		"(assert (forall ((s Str) (t Str) (i Int)) (! (=> (and (<= 0 i) (< i (+ (slen s) (slen t)))) (= (sat (scat s t) i) (ite (< i (slen s)) (sat s i) (sat t (- i (slen s)))))) :pattern ((sat (scat s t) i)))))",
+		// substring of a concatenation / of a substring (rewrite lemmas, consequences of extensionality)
+		"(assert (forall ((s Str) (t Str) (a Int) (b Int)) (! (=> (and (<= 0 a) (<= a b) (<= b (slen s))) (= (ssub (scat s t) a b) (ssub s a b))) :pattern ((ssub (scat s t) a b)))))",
+		"(assert (forall ((s Str) (t Str) (a Int) (b Int)) (! (=> (and (<= (slen s) a) (<= a b) (<= b (+ (slen s) (slen t)))) (= (ssub (scat s t) a b) (ssub t (- a (slen s)) (- b (slen s))))) :pattern ((ssub (scat s t) a b)))))",
+		"(assert (forall ((s Str) (a Int) (b Int) (c Int) (d Int)) (! (=> (and (<= 0 a) (<= a b) (<= b (slen s)) (<= 0 c) (<= c d) (<= d (- b a))) (= (ssub (ssub s a b) c d) (ssub s (+ a c) (+ a d)))) :pattern ((ssub (ssub s a b) c d)))))",
 		// bytes -> string
 		"(assert (forall ((a (Array Int Int)) (o Int) (n Int)) (! (=> (>= n 0) (= (slen (sfrom a o n)) n)) :pattern ((sfrom a o n)))))",
 		"(assert (forall ((a (Array Int Int)) (o Int) (n Int) (i Int)) (! (=> (and (<= 0 i) (< i n) (<= 0 (select a (+ o i))) (< (select a (+ o i)) 256)) (= (sat (sfrom a o n) i) (select a (+ o i)))) :pattern ((sat (sfrom a o n) i)))))",
@@ -400,15 +420,15 @@ func (s *Script) strLit(lit string) string {
 	s.strLits[lit] = n
 	s.strList = append(s.strList, lit)
 	s.emit("(declare-fun " + n + " () Str)")
-	s.assert(mkEq("(slen "+n+")", num(int64(len(lit)))))
+	s.axiom(mkEq("(slen "+n+")", num(int64(len(lit)))))
 	if len(lit) <= 64 {
 		for i := 0; i < len(lit); i++ {
-			s.assert(mkEq(fmt.Sprintf("(sat %s %d)", n, i), num(int64(lit[i]))))
+			s.axiom(mkEq(fmt.Sprintf("(sat %s %d)", n, i), num(int64(lit[i]))))
 		}
 	}
 	// distinct from the earlier literals
 	for _, other := range s.strList[:len(s.strList)-1] {
-		s.assert("(not (= " + n + " " + s.strLits[other] + "))")
+		s.axiom("(not (= " + n + " " + s.strLits[other] + "))")
 	}
 	return n
 }
@@ -432,7 +452,7 @@ func (s *Script) strEqLit(t, lit string) string {
 	for i := 0; i < len(lit); i++ {
 		conj = append(conj, mkEq(fmt.Sprintf("(sat %s %d)", t, i), num(int64(lit[i]))))
 	}
-	s.assert(mkEq(mkEq(t, c), mkAnd(conj...)))
+	s.axiom(mkEq(mkEq(t, c), mkAnd(conj...))) // instance of extensionality: holds everywhere
 	return mkEq(t, c)
 }
 
